@@ -230,15 +230,16 @@ def run_case(case, ctx):
     bound0 = sc.served0[("obj", scen.T)]
     errnos = ("EIO",) if ctx.tier == "quick" else ("EIO", "ENOSPC", "EACCES")
     ctx.evaluations -= 1
-    # (ENOENT once: the failure class Python turns into FileNotFoundError, which handlers like to treat as "already gone")
+    # ("vanish": the call's temporary file is really removed by a third party - a tmp reaper - right before the operation that
+    #  needs it, so the operation fails with a genuine 'no such file', which handlers like to treat as "already gone")
     runs = itertools.chain(fault.faulted_runs(sc, errnos=errnos), fault.faulted_runs(sc, modes=("full",), errnos=("ENOSPC",)),
-                           fault.faulted_runs(sc, modes=(False,), errnos=("ENOENT",)))
+                           fault.faulted_runs(sc, modes=("vanish",), errnos=("ENOENT",)))
     for inj, store, d, out in runs:
         ctx.count()
         ev = inj.fired
         where = f"{case['kind']} with {inj.describe()}"
         pc = fault.path_class(d, ev)
-        mode = "disk-full" if inj.sticky == "full" else "sticky" if inj.sticky else "one-off"
+        mode = "disk-full" if inj.sticky == "full" else "tmp-file-vanished" if inj.sticky == "vanish" else "sticky" if inj.sticky else "one-off"
         sig = {"call": case["kind"], "op": tgt["op"], "path_class": pc, "mode": mode, "site": ev.kind}
         a = common.alpha(d, cfg)
         oc = "ok" if is_ok(out) else out[1]
